@@ -53,7 +53,29 @@ TrLabel ==
             /\ drifts' = IF dr THEN Append(drifts, l) ELSE drifts
             /\ zoned'  = IF e.cls = "zoned" /\ zoned = "" /\ cand # {} THEN CHOOSE x \in cand : TRUE ELSE zoned
 
-TraceSpec == TraceInit /\ [][TrLabel]_<<vars, tvars>>
+\* ---- labels of the REAL collectors' series (histories of LocationLabelHist replayed on prometheus.NewServiceMetrics) ----
+\*   {"ev":"LabelSet","family":f,"mode":"eq"|"subset","want":[{"cls":c,"db":d,"cc":country}..],"got":[label..]}
+\*      want = the lookups (class of the client, database behaviour in force at THAT lookup) that feed family f in
+\*             this step, as the model says; got = the location labels whose series of f grew (or appeared) in this step
+\*   {"ev":"Consulted","cls":[c..],"enabled":b}   classes of the IPs the database was asked for during this step
+SeqSet(q) == {q[i] : i \in 1..Len(q)}
+WantLabel(w) == IF Label(w.cls, w.db) = "CC" THEN w.cc ELSE Label(w.cls, w.db)
+TrLabelSet ==
+    /\ l <= Len(Trace) /\ Trace[l].ev = "LabelSet" /\ l' = l + 1
+    /\ LET e == Trace[l]
+           want == {WantLabel(w) : w \in SeqSet(e.want)}
+           got == SeqSet(e.got)
+           bad == IF e.mode = "eq" THEN want # got ELSE ~(got \subseteq want) IN
+         viols' = IF bad THEN Append(viols, [line |-> l, kind |-> "series-label-mismatch"]) ELSE viols
+    /\ UNCHANGED <<vars, drifts, zoned>>
+TrConsulted ==
+    /\ l <= Len(Trace) /\ Trace[l].ev = "Consulted" /\ l' = l + 1
+    /\ LET e == Trace[l]
+           bad == \E c \in SeqSet(e.cls) : ~MayConsult(c, IF e.enabled THEN "hit" ELSE "disabled") IN
+         viols' = IF bad THEN Append(viols, [line |-> l, kind |-> "db-consulted-for-nonglobal-or-disabled"]) ELSE viols
+    /\ UNCHANGED <<vars, drifts, zoned>>
+
+TraceSpec == TraceInit /\ [][TrLabel \/ TrLabelSet \/ TrConsulted]_<<vars, tvars>>
 Report == (l = Len(Trace) + 1) =>
             PrintT(<<"RESULT", ToJson([lines |-> l - 1, viols |-> viols, drifts |-> drifts])>>)
 TraceAccepted == TLCGet("stats").diameter - 1 = Len(Trace)
